@@ -683,6 +683,33 @@ func genPath(t *rapid.T) pathCase {
 		tile.W = rapid.IntRange(1, 1<<uint(h)).Draw(t, "w")
 	}
 	c := pathCase{T: tile}
+	if gen.Chance(t, 6, "bignumber") {
+		// canonical spelling of a tile number of 19 to 27 digits: around and beyond 2^63 and 2^64
+		groups := rapid.IntRange(7, 9).Draw(t, "groups")
+		num := ""
+		for g := 0; g < groups; g++ {
+			d := rapid.IntRange(0, 999).Draw(t, "grp")
+			if g == 0 {
+				d = []int{1, 4, 9, 18, 36, 92, 184, 999, rapid.IntRange(1, 999).Draw(t, "lead")}[gen.Uniform(t, 9, "leadk")]
+			}
+			if g < groups-1 {
+				num += fmt.Sprintf("x%03d/", d)
+			} else {
+				num += fmt.Sprintf("%03d", d)
+			}
+		}
+		if gen.Chance(t, 30, "exact") {
+			num = []string{"x009/x223/x372/x036/x854/x775/807", "x009/x223/x372/x036/x854/x775/808", "x018/x446/x744/x073/x709/x551/615", "x018/x446/x744/x073/x709/x551/616", "x018/x446/x744/x073/x709/x552/000", "x004/x611/x686/x018/x427/x387/903", "x004/x611/x686/x018/x427/x387/904"}[gen.Uniform(t, 7, "exactv")]
+		}
+		c.Str = fmt.Sprintf("tile/%d/%d/%s", tile.H, tile.L, num)
+		if tile.L < 0 {
+			c.Str = fmt.Sprintf("tile/%d/data/%s", tile.H, num)
+		}
+		if tile.W < 1<<uint(tile.H) {
+			c.Str += fmt.Sprintf(".p/%d", tile.W)
+		}
+		return c
+	}
 	switch rapid.IntRange(0, 3).Draw(t, "sk") {
 	case 0:
 		c.Str = gen.MutateString(t, refPath(tile), 1, []string{"x", "0", "/", ".p", ".p/", "1", "9", "data", "-", "+", " ", "tile/", "00", "000/", "x000/", "/0"})
@@ -734,6 +761,7 @@ var subs = []pbt.Sub{
 	pbt.New("publish", 1500, 5000, genPublish, checkPublish),
 	pbt.New("tiledata", 15000, 50000, genTileData, checkTileData),
 	pbt.New("path", 30000, 100000, genPath, checkTilePath),
+	pbt.New("huge", 10000, 40000, genHuge, checkHuge),
 }
 
 func TestGen(t *testing.T)    { pbt.RunAll(t, subs) }
